@@ -154,6 +154,7 @@ Proof.
   set (c := wrapU W (r_corr rc)) in *.
   set (r := r_shift rc + W) in *.
   set (h := d / 2) in *.
+  assert (Hhd : 0 <= h < d) by (unfold h; split; [apply Z.div_pos; lia|apply Z.div_lt_upper_bound; lia]).
   assert (HWpos : 16 <= W <= 32) by (destruct HW; lia).
   assert (P16 : 2 ^ 16 = 65536) by reflexivity.
   assert (P32 : 2 ^ 32 = 4294967296) by reflexivity.
@@ -199,8 +200,9 @@ Proof.
   set (c := wrapU 16 (r_corr rc)) in *.
   set (r := r_shift rc + 16) in *.
   set (h := d / 2) in *.
+  assert (Hhd : 0 <= h < d) by (unfold h; split; [apply Z.div_pos; lia|apply Z.div_lt_upper_bound; lia]).
   assert (P16 : 2 ^ 16 = 65536) by reflexivity.
-  intros x Hx. unfold quantize_simd_one, rdiv. cbv zeta. fold f. fold c. rewrite Hscale.
+  intros x Hx. unfold quantize_simd_one, rdiv. cbv zeta. fold f. fold c. fold h. rewrite Hscale.
   assert (Hax : 0 <= Z.abs x <= 32767) by lia.
   rewrite wrapU_small by lia.
   destruct (Mag0 (Z.abs x) Hax) as [Hq Hb]. fold h in Hq, Hb.
